@@ -7,7 +7,7 @@
    implementation by the correspondence run (see DESIGN.md), supported here by the element-count bound. *)
 From Coq Require Import String.
 From TlsModel Require Import Bytes Nom Values DispatchTypes Handshake Record Extensions Kx Dtls Defrag
-  NomGeneric SafeProofs PublicSafe NoPanicProofs DefragProofs.
+  NomGeneric SafeProofs PublicSafe NoPanicProofs DefragProofs PartialOps PartialOpsProofs.
 From TlsModel Require Import Consts.
 
 (* every public parser, by Rust name *)
@@ -43,6 +43,15 @@ Theorem C01_defragmenter_buffer_bounded : forall dbg ops, Forall record_within_c
   Forall (fun e => bounded (snd e)) (run_ops dbg d_init ops).
 Proof. intros dbg ops. exact (buffer_bound dbg ops d_init init_bounded). Qed.
 
+(* the partial operations of the current source (unwrap / expect / panicking macros / index and slice expressions /
+   subtractions on lengths, outside test modules; regenerated inventory, T11) are among the sites the model
+   represents by Idx / PanicP: a panic site the model does not know about breaks this obligation *)
+Theorem C01_partial_ops_obligation : partial_ops_ok = true.
+Proof. vm_compute. reflexivity. Qed.
+Theorem C01_partial_ops_modelled : forall f fn k e, In (f, fn, k, e) partial_ops ->
+  (count_ops f fn k <= allowed f fn k)%nat /\ (0 < allowed f fn k)%nat.
+Proof. exact (partial_ops_modelled C01_partial_ops_obligation). Qed.
+
 Print Assumptions C01_public_parsers_safe.
 Print Assumptions C01_public_parsers_with_argument_safe.
 Print Assumptions C01_record_with_header_safe.
@@ -53,3 +62,5 @@ Print Assumptions C01_defragmenter_never_panics.
 Print Assumptions C01_many0_elements_bounded.
 Print Assumptions C01_many1_elements_bounded.
 Print Assumptions C01_defragmenter_buffer_bounded.
+Print Assumptions C01_partial_ops_obligation.
+Print Assumptions C01_partial_ops_modelled.
